@@ -1,5 +1,6 @@
 """C11 -- every reported intersection is a real one, in range, with coherent parameters.
    C12 -- every transversal crossing is reported, exactly once  (contracts registered under C12)."""
+import math
 from pyvc.dsl import contract
 from pyvc import ops
 from specs import bez
@@ -372,3 +373,80 @@ def constructed_crossing_is_reported_sampled(c, n1, n2):
     near = [(u, v) for (u, v) in res if abs(u - s) <= 1e-4 and abs(v - t) <= 1e-4]
     c.ensures('crossing-is-reported', len(near) >= 1)
     c.ensures('crossing-is-reported-once', len(near) <= 1)
+
+
+@contract('C12', 'path.Path.intersect',
+          params=[{'k1': a, 'k2': b, 'where': w, 'near': n, '_no_bounded': True}
+                  for a, b in (('LL', 'L'), ('LQ', 'C'), ('CLL', 'LL')) for w in ('two-segments', 'one-pair') for n in (False, True)],
+          level='per-shape', budget=120)
+def path_intersect_keeps_every_distinct_crossing(c, k1, k2, where, near):
+    """completeness of the path-level bookkeeping, given the segment-level routine's answers
+    (callee contract: an arbitrary list of parameter pairs in [0,1]^2 per segment pair):
+    every pair of segments is intersected exactly once, and a reported crossing is dropped only
+    when its point on `self` lies within tol of the point of an earlier reported crossing."""
+    p1, s1, pts1 = mkpath(c, k1)
+    p2, s2, pts2 = mkpath(c, k2, prefix='o')
+    # two crossings: on two different segments of self, or both on the first segment pair
+    want = {(0, 0): 1, (1, 0): 1} if where == 'two-segments' else {(0, 0): 2}
+    table, order = {}, []
+
+    def seg_intersect(ip, f, args, kwargs):
+        a, b = args[0], args[1]
+        i, j = [k for k, s in enumerate(s1) if s is a][0], [k for k, s in enumerate(s2) if s is b][0]
+        order.append((i, j))
+        if (i, j) not in table:
+            table[(i, j)] = [(c.real('t1_%d%d_%d' % (i, j, k)), c.real('t2_%d%d_%d' % (i, j, k))) for k in range(want.get((i, j), 0))]
+            for (u, v) in table[(i, j)]:
+                c.assume(ops.And(ops.le(0, u), ops.le(u, 1), ops.le(0, v), ops.le(v, 1)))
+        return list(table[(i, j)])
+    for cls in ('Line', 'QuadraticBezier', 'CubicBezier'):
+        c.ip.summaries['path.%s.intersect' % cls] = seg_intersect
+    c.ip.summaries['path.Path.t2T'] = lambda ip, f, args, kwargs: ip.ctx.fresh_real('T')
+    c.assume(ops.Not(c.py_eq(p1, p2)))
+    # the points of the two crossings on self
+    hits = [(i, j, k) for (i, j) in sorted(want) for k in range(want[(i, j)])]
+    tol = c.const('1e-12')
+
+    def hit_point(i, j, k):
+        return bez.bern(pts1[i], c.real('t1_%d%d_%d' % (i, j, k)))
+    zA, zB = hit_point(*hits[0]), hit_point(*hits[1])
+    d2 = ops.norm2(zA - zB)
+    if near:
+        c.assume(ops.lt(d2, tol * tol))
+    else:
+        c.assume(ops.le(tol * tol, d2))
+    res = list(c.items(c.callm(p1, 'intersect', p2)))
+    c.ensures('every-pair-of-segments-is-intersected-exactly-once', order == [(i, j) for i in range(len(s1)) for j in range(len(s2))])
+    kept = []
+    for e in res:
+        (T1, g1, t1), (T2, g2, t2) = [tuple(c.items(x)) for x in c.items(e)]
+        i, j = [k for k, s in enumerate(s1) if s is g1][0], [k for k, s in enumerate(s2) if s is g2][0]
+        kept.append([(i, j, k) for k, (u, v) in enumerate(table[(i, j)]) if t1 is u and t2 is v][0])
+    if near:
+        c.ensures('the-second-report-of-one-crossing-is-dropped-and-the-first-kept', kept == [hits[0]])
+    else:
+        c.ensures('two-crossings-at-distinct-points-are-both-reported-once-each', kept == hits)
+
+
+@contract('C12', 'path.Path.intersect', params=[{'teeth': n, '_bounded_only': True} for n in (2, 3, 4)])
+def zigzag_crossings_are_all_reported_sampled(c, teeth):
+    """bounded stand-in for the path level: a zig-zag of congruent teeth cut by a line that
+    crosses every flank strictly inside, transversally and far from the others (so the crossings
+    sit at the SAME segment-local parameter on different segments): one report per flank, in both
+    call orders"""
+    import svgpathtools.path as sp
+    w, h = 1.0 + abs(c.real('w')) % 9, 1.0 + abs(c.real('h')) % 9
+    y = h * (0.15 + 0.7 * (abs(c.real('y')) % 1.0))
+    org = c.cplx('origin')
+    rot = complex(math.cos(c.real('a')), math.sin(c.real('a')))
+    pts = []
+    for k in range(teeth):
+        pts += [complex(2 * k * w, 0), complex((2 * k + 1) * w, h)]
+    pts.append(complex(2 * teeth * w, 0))
+    tf = lambda z: org + rot * z
+    zig = sp.Path(*[sp.Line(tf(pts[i]), tf(pts[i + 1])) for i in range(len(pts) - 1)])
+    cut = sp.Path(sp.Line(tf(complex(-w, y)), tf(complex((2 * teeth + 1) * w, y))))
+    n = 2 * teeth
+    r1, r2 = zig.intersect(cut), cut.intersect(zig)
+    c.ensures('one-report-per-flank:zigzag.intersect(line)', len(r1) == n)
+    c.ensures('one-report-per-flank:line.intersect(zigzag)', len(r2) == n)
